@@ -191,7 +191,8 @@ Fixpoint mirror_from (f : from) : from :=
   end.
 Definition mirror_kind (k : jkind) : jkind :=
   match k with JLeft => JRight | JRight => JLeft | k => k end.
-Definition swap_col (wl wr : nat) (i : nat) : nat := if Nat.ltb i wl then (i + wr)%nat else (i - wl)%nat.
+Definition swap_col (wl wr : nat) (i : nat) : nat :=
+  if Nat.ltb i wl then (i + wr)%nat else if Nat.ltb i (wl + wr) then (i - wl)%nat else i.
 
 Definition on_where (f : expr -> expr) (q : query) : option (query * list nat) :=
   match q_where q with
@@ -200,7 +201,7 @@ Definition on_where (f : expr -> expr) (q : query) : option (query * list nat) :
   end.
 Definition nat_ltb_all (n : nat) (p : list nat) : bool := forallb (fun i => Nat.ltb i n) p.
 Definition is_perm (n : nat) (p : list nat) : bool :=
-  Nat.eqb (length p) n && forallb (fun i => existsb (Nat.eqb i) p) (seq 0 n).
+  Nat.eqb (length p) n && nat_ltb_all n p && forallb (fun i => existsb (Nat.eqb i) p) (seq 0 n).
 
 (* the rewritten query and the column permutation of its output:
    new_row[j] = old_row[perm[j]]; [] = identity.  None = the rewrite does not apply. *)
@@ -253,7 +254,7 @@ Definition select_cols {A} (perm : list nat) (r : list A) : list (option A) := m
 Definition permute_orow (perm : list nat) (o : orow) : orow :=
   match perm with
   | [] => o
-  | _ => map (fun i => match nth_error o i with Some c => c | None => None end) perm
+  | _ => map (fun i => nth i o None) perm
   end.
 
 (* the ternary-logic partition of a query with a WHERE clause *)
